@@ -128,14 +128,14 @@ def run(c):
     c.r2("fixed-bytes-cap-bin", "<grin_core::ser::BinReader<'a, R> as grin_core::ser::Reader>::read_fixed_bytes", ops={"Gt"}, lhs=["arg1"], rhs=["const:100000"],
          err="TooLargeReadErr", sink="re:alloc::vec::from_elem$")
     c.r2("locator-cap", "<grin_p2p::msg::Locator as grin_core::ser::Readable>::read", ops={"Gt"}, lhs=["call:Reader::read_u8"], rhs=["re:^item:types::MAX_LOCATORS="],
-         err="TooLargeReadErr", sink="re:alloc::vec::Vec::with_capacity$")
+         err="TooLargeReadErr", sink="re:alloc::vec::Vec::with_capacity$", sink_optional=True)
     c.r2("peer-addrs-cap", "<grin_p2p::msg::PeerAddrs as grin_core::ser::Readable>::read", ops={"Gt"}, lhs=["call:Reader::read_u32"], rhs=["re:^item:types::MAX_PEER_ADDRS="],
-         err="TooLargeReadErr", sink="re:alloc::vec::Vec::with_capacity$")
+         err="TooLargeReadErr", sink="re:alloc::vec::Vec::with_capacity$", sink_optional=True)
     BB = "<grin_chain::txhashset::bitmap_accumulator::BitmapBlock as grin_core::ser::Readable>::read"
     c.r2("bitmap-block-pos", BB, ops={"Ge"}, lhs=["call:Reader::read_u16"], rhs=["call:Reader::read_u8", "op:MulWithOverflow", "re:^item:BitmapChunk::LEN_BITS="], err="CorruptedData", sink="re:bit_vec::BitVec::set$", min_guards=2)
     c.r2("bitmap-block-chunks", BB, ops={"Gt"}, lhs=["call:Reader::read_u8"], rhs=["re:^item:.*NCHUNKS="], err="TooLargeReadErr", sink="re:bit_vec::BitVec::from_elem$")
     BS = "<grin_chain::txhashset::bitmap_accumulator::BitmapSegment as grin_core::ser::Readable>::read"
-    c.r2("bitmap-seg-blocks", BS, ops={"Gt"}, lhs=["call:Reader::read_u16"], rhs=["call:BitmapSegment::max_chunks", "op:AddWithOverflow", "op:SubWithOverflow", "op:Div"], err="TooLargeReadErr", sink="re:alloc::vec::Vec::with_capacity$")
+    c.r2("bitmap-seg-blocks", BS, ops={"Gt"}, lhs=["call:Reader::read_u16"], rhs=["call:BitmapSegment::max_chunks", "op:AddWithOverflow", "op:SubWithOverflow", "op:Div"], err="TooLargeReadErr", sink="re:alloc::vec::Vec::with_capacity$", sink_optional=True)
     c.r2("bitmap-seg-height", "grin_chain::txhashset::bitmap_accumulator::BitmapSegment::max_chunks", ops={"Gt"}, lhs=["arg0.height"], rhs=["re:^item:.*MAX_SEGMENT_HEIGHT="],
          err="TooLargeReadErr")
     c.r2("bitmap-seg-chunks", "grin_chain::txhashset::bitmap_accumulator::BitmapSegment::validate_blocks", ops={"Gt"}, lhs=["call:BitmapSegment::n_chunks"], rhs=["call:BitmapSegment::max_chunks"],
